@@ -490,6 +490,11 @@ CORE_OPS = {"nop", "unreachable", "drop", "select", "local.get", "local.set", "l
             "br_table", "return", "call", "call_indirect", "i32.const", "i64.const", "f32.const", "f64.const"}
 
 
+# instructions through which the payload/sign of an arithmetic NaN (left open by the specification; the soft-float NumSem returns the
+# canonical NaN, the hardware propagates payloads) becomes visible in non-NaN bits
+NAN_LEAK_OPS = {"i32.reinterpret_f32", "i64.reinterpret_f64", "f32.copysign", "f64.copysign"}
+
+
 def _is_core_op(op):
     if op in CORE_OPS:
         return True
@@ -561,6 +566,8 @@ def sim_plan(m):
         direct[fi] = set(i.imm[0] for i in ops if i.op == "call")
         indirect[fi] = any(i.op == "call_indirect" for i in ops)
     tablefuncs = set(f for seg in m.elems for f in seg.funcs)
+    leaky = set(nimp + k for k, f in enumerate(m.funcs) if any(i.op in NAN_LEAK_OPS for i in _walk(f.body)))
+    sim_plan.leaky = leaky
 
     def reach(f0):
         seen, todo = set(), [f0]
@@ -598,7 +605,9 @@ def sim_lines(join, m, imp, calls, exports, depth=6000):
         exd.setdefault(bytes(nm), f)
     runs = []
     ncallers = [0]
+    leaky_runs = set()
     sim_lines.last_callers = ncallers
+    sim_lines.last_leaky = leaky_runs
     for cn, (nm, args) in enumerate(calls):
         f = exd[bytes(nm)]
         r = reach(f)
@@ -606,6 +615,8 @@ def sim_lines(join, m, imp, calls, exports, depth=6000):
             continue
         if len(r) > 1:
             ncallers[0] += 1
+        if any(x in sim_plan.leaky for x in r):
+            leaky_runs.add(cn)
         runs.append((len(lines), cn))
         lines.append("E mrun %d %d %s" % (depth, f, ",".join("%s:%x" % (t, b) for t, b in args) or "-"))
     return lines, runs, elem_at
@@ -641,12 +652,12 @@ def sim_tie(env, results, driver_ok=True):
         out["calls_considered"] += len(calls)
         out["runs_whose_call_graph_has_callees"] = out.get("runs_whose_call_graph_has_callees", 0) + sim_lines.last_callers[0]
         out["skipped"]["static-call-graph-leaves-core"] = out["skipped"].get("static-call-graph-leaves-core", 0) + len(calls) - len(runs)
-        plan.append((res, len(lines), runs, elem_at))
+        plan.append((res, len(lines), runs, elem_at, set(sim_lines.last_leaky)))
         lines += ls
     if not (lines and driver_ok and env.driver):
         return out
     ans = vlib.DriverProc(env.driver).batch(lines, timeout=3600)
-    for res, base, runs, elem_at in plan:
+    for res, base, runs, elem_at, leaky in plan:
         real = res["builds"][0]["real"]
         v8r = res["v8"]["results"]
         if elem_at is not None and real.get("table") is not None:
@@ -685,7 +696,10 @@ def sim_tie(env, results, driver_ok=True):
                 bad.append("src != V8")
             if r is None or not e2e.same_result(r, src):
                 bad.append("src != real")
-            if bad:
+            if bad and "tgt != src" not in bad and cn in leaky and v is not None and r is not None and e2e.same_result(r, v):
+                # V8 and the compiled output agree (same hardware NaN), the model's canonical NaN leaked through reinterpret/copysign
+                out["nan_payload_leaks_tolerated"] = out.get("nan_payload_leaks_tolerated", 0) + 1
+            elif bad:
                 out["disagreements"].append({"module": res["id"], "call": res["calls_made"][cn], "what": ", ".join(bad),
                                              "src": src_s, "tgt": tgt_s, "v8": v, "real": r})
     return out
